@@ -52,7 +52,7 @@ def step (ss : Sess) (line : String) : Sess × String :=
       match findTab name, findWrap name with
       | some t, some w =>
         if CodeWrapper.supported t && (t.repeatBursts.isEmpty || CodeWrapper.streamEnc t.repeatBursts == .general) then
-          let r := if t.decodeOverridden then decodeW t w inst data else Proto.baseDecode t inst data
+          let r := decodeP t w inst data
           let ss' := { ss with insts := (iid, name, r.inst) :: ss.insts.filter (·.1 != iid) }
           let tail := s!" islast={r.isLast} stops={r.effects.length} held={match r.inst.last with | some c => showCodeV c | none => "-"}"
           match r.result with
